@@ -36,13 +36,24 @@ def queries(tier):
     for nf in (1, 2, 3):
         qs.append(Query("ws-reassemble-%dframes" % nf, "c16/wsframe.c", tus=["core/list.c"], env=WENV + ["env_msg.c"], defs={"FINISH": 1, "NF": nf, "SERVER": 1},
                         unwind=30, timeout=300, params={"kernel": "ws_read_finish_msg", "fragments": nf}))
+    qs.append(Query("ws-preptx-server-symbolic-length", "c16/wsframe.c", tus=["core/list.c"], env=WENV, defs={"PREPTX": 1}, unwind=12, timeout=600, mem_gb=8,
+                    group="~c16/wsframe.c#preptx", params={"kernel": "ws_frame_prep_tx", "role": "server", "payload_length": "symbolic 0..2^63-1", "fragsize": "symbolic"}))
+    for n in ((0, 1, 125, 126, 127) if tier == "quick" else (0, 1, 2, 3, 4, 5, 8, 124, 125, 126, 127, 128, 130)):
+        for cut in sorted(set((0, n // 2, n) if tier == "quick" else (0, 1 if n else 0, n // 2, n))):
+            qs.append(Query("ws-preptx-client-len%d-cut%d" % (n, cut), "c16/wsframe.c", tus=["core/list.c"], env=WENV, defs={"PREPTX": 2, "TXLEN": n, "CUT": cut}, unwind=n + 12,
+                            timeout=600, mem_gb=8, group="~c16/wsframe.c#preptx",
+                            params={"kernel": "ws_frame_prep_tx + ws_mask_frame", "role": "client", "payload_length": n, "iov_split_at": cut}))
     OPS = [0, 1, 2, 8, 9, 10, 3, 11, 0x41]
     for server in (0, 1):
         for lclass in (0, 1, 2):
             for masked in (0, 1):
-                qs.append(Query("wsframe1-%s-l%d-m%d" % ("srv" if server else "cli", lclass, masked), "c16/wsframe.c", tus=["core/list.c"],
-                                env=WENV, defs={"SERVER": server, "LCLASS": lclass, "MASKED": masked, "OP": 2, "STAGE1": 1}, unwind=30,
-                                timeout=300, params={"kernel": "ws_read_cb stage 1", "role": server, "length_form": lclass, "mask_bit": masked}))
+                # stage 1 decodes FIN / RSV / opcode / mask / length form from the first two bytes: the opcode field
+                # (RSV bits included) is concrete per query because it decides control when the header is already complete
+                for op1 in ((2, 0x41, 0x22, 0x19) if (lclass == 0 or tier != "quick") else (2, 0x12)):
+                    qs.append(Query("wsframe1-%s-l%d-m%d%s" % ("srv" if server else "cli", lclass, masked, "" if op1 == 2 else "-op%x" % op1), "c16/wsframe.c", tus=["core/list.c"],
+                                    env=WENV, defs={"SERVER": server, "LCLASS": lclass, "MASKED": masked, "OP": op1, "STAGE1": 1}, unwind=30,
+                                    timeout=300, expect_fail=[r"memcpy (source|destination) region"],
+                                    params={"kernel": "ws_read_cb stage 1", "role": server, "length_form": lclass, "mask_bit": masked, "opcode_field": op1}))
                 for op in (OPS if (lclass == 0 and (masked == server)) or tier != "quick" else (2,)):
                     qs.append(Query("wsframe2-%s-l%d-m%d-op%x" % ("srv" if server else "cli", lclass, masked, op), "c16/wsframe.c",
                                     tus=["core/list.c"], env=WENV, defs={"SERVER": server, "LCLASS": lclass, "MASKED": masked, "OP": op},
